@@ -223,6 +223,8 @@ def hist_ops(kind, dims):
     another element type, removed; an agent sent (move_to) to coordinates next to the grid - accepted on single-layer
     axes, which the spatial range check does not constrain - or moved about inside."""
     ops = [['level', how] for how in ('int', 'int10', 'float', 'str', 'gen')] + [['rain'], ['drop', 'level'], ['drop', 'rain']]
+    # components whose names are not plain public identifiers
+    ops += [['named', nm] for nm in ('soil type', 'class', '_hidden', '2nd crop')]
     ops.append(['rebind'])          # the table replaced by a copy of itself (env.cells = env.cells.copy(), to defragment it)
     d3 = list(dims) + [0] * (3 - len(dims))
     narg = NARG.get(kind, 3)
@@ -279,6 +281,9 @@ def history_case(case):
                 continue
             world.remove_cell_component(op[1])
             del cols[op[1]]
+        elif op[0] == 'named':
+            world.add_cell_component(op[1], [f'{op[1]}#{i}' for i in range(n)])
+            cols[op[1]] = [f'{op[1]}#{i}' for i in range(n)]
         elif op[0] == 'rebind':
             world.cells = world.cells.copy()
         elif op[0] == 'walk':
